@@ -751,3 +751,20 @@ func init() {
 		return nil
 	}
 }
+
+func init() {
+	// (time.Time).Add on an instant of the virtual clock: ext + d (the wall field is not
+	// consulted again: Unix/UnixNano/Nanosecond read ext). Instants and durations are
+	// below 2^61 in every harness, so the saturation branches of the real code are unreachable.
+	externals["(time.Time).Add"] = func(fr *frame, args []value) value {
+		i := fr.i
+		ext, mono := i.timeMono(args[0])
+		if !mono || (!isSym(ext) && !isSym(args[1])) {
+			fr2 := &frame{i: fr.i, caller: fr.caller, fn: fr.fn}
+			return runBody(fr2, args)
+		}
+		st := args[0].(structure)
+		ne := i.norm(i.ts.BVOp("bvadd", i.toTerm(ext), i.toTerm(args[1])), types.Typ[types.Int64])
+		return structure{st[0], ne, st[2]}
+	}
+}
